@@ -154,7 +154,148 @@ pub fn shrink_run(req: &str) -> Vec<String> {
     out
 }
 
+// ---------------------------------------------------------------- stream `runm`
+// several runs on ONE Context, a command table that commands change at run time, command state
+// kept in Context.state (lean/DuckModel/DynScripted.lean)
+
+const DYN_NAMES: [&str; 10] = ["c0", "c1", "c2", "c3", "k0", "k1", "on_error", "reg", "stput", "lib::C"];
+
+fn gen_dyn_line(rng: &mut Rng) -> String {
+    let mut s = String::new();
+    if rng.chance(1, 6) {
+        s.push_str(*rng.pick(&LABELS));
+        s.push(' ');
+    }
+    if rng.chance(1, 2) {
+        s.push_str(*rng.pick(&VARS));
+        s.push_str(" = ");
+    }
+    match rng.below(10) {
+        0 => {
+            s.push_str("reg ");
+            s.push_str(*rng.pick(&DYN_NAMES));
+            for _ in 0..rng.below(3) {
+                s.push(' ');
+                s.push_str(*rng.pick(&DYN_NAMES));
+            }
+        }
+        1 => {
+            s.push_str("unreg ");
+            s.push_str(*rng.pick(&DYN_NAMES));
+        }
+        2 => s.push_str(&format!("stput {} {}", rng.pick(&["k", "j", "${x}"]), gen_arg(rng))),
+        3 => s.push_str(&format!("stget {}", rng.pick(&["k", "j", "${x}", "nokey"]))),
+        _ => {
+            s.push_str(*rng.pick(&["c0", "c1", "c2", "c3", "k0", "k1", "lib::C", "on_error"]));
+            for _ in 0..rng.below(3) {
+                s.push(' ');
+                s.push_str(&gen_arg(rng));
+            }
+        }
+    }
+    s
+}
+
+fn gen_dyn(rng: &mut Rng) -> Case {
+    // registrations: the four specials, then scripted commands whose aliases may equal OTHER
+    // commands' names (accepted by Commands::set; the alias table is consulted first)
+    let mut specs: Vec<String> = vec![];
+    let spec = |n: &str, al: &[String]| format!("S/{}/{}/0", enc_str(n), enc_list(al));
+    for n in ["reg", "unreg", "stput", "stget"] {
+        specs.push(spec(n, &[]));
+    }
+    let pool = ["c0", "c1", "c2", "c3", "k0", "k1", "on_error", "lib::C"];
+    let ncmd = 2 + rng.below(4);
+    for _ in 0..ncmd {
+        let n = *rng.pick(&pool);
+        let al: Vec<String> = (0..rng.below(3)).map(|_| rng.pick(&pool).to_string()).collect();
+        specs.push(spec(n, &al));
+    }
+    let ntexts = 1 + rng.below(3);
+    let mut maxn = 0;
+    let texts: Vec<String> = (0..ntexts).map(|_| {
+        let n = 1 + rng.below(10);
+        maxn = maxn.max(n);
+        (0..n).map(|_| if rng.chance(1, 8) { gen_line(rng) } else { gen_dyn_line(rng) }).collect::<Vec<_>>().join("\n")
+    }).collect();
+    let qn = rng.below(20);
+    let queue: Vec<String> = (0..qn).map(|k| gen_result(rng, maxn, k)).collect();
+    let mut vars: Vec<String> = vec![];
+    for k in VARS.iter() {
+        if rng.chance(1, 2) {
+            vars.push(format!("{}={}", enc_str(k), enc_str(&pools::value(rng))));
+        }
+    }
+    let fuel = (qn + 3) * (maxn + 3) + 10;
+    let req = format!(
+        "runm {} {} {} {} {}",
+        specs.join(";"), if queue.is_empty() { "-".to_string() } else { queue.join(",") },
+        if vars.is_empty() { "-".to_string() } else { vars.join(",") }, fuel,
+        texts.iter().map(|t| enc_str(t)).collect::<Vec<_>>().join(";")
+    );
+    let mut tags = vec!["multi-run+dynamic-registry"];
+    if ntexts > 1 { tags.push("runs>=2"); }
+    Case { req, in_domain: true, nontrivial: qn >= 2, tags }
+}
+
+fn run_dyn_req(req: &str) -> String {
+    let t: Vec<&str> = req.split(' ').collect();
+    let specs: Vec<(String, Vec<String>)> = t[1].split(';').map(|s| {
+        let f: Vec<&str> = s.split('/').collect();
+        (dec_str(f[1]).unwrap(), dec_list(f[2]).unwrap())
+    }).collect();
+    let vars = dec_vars(t[3]);
+    let texts: Vec<String> = t[5].split(';').map(|x| dec_str(x).unwrap()).collect();
+    run_dyn(&specs, t[2], &vars, &texts)
+}
+
+fn shrink_dyn(req: &str) -> Vec<String> {
+    let t: Vec<&str> = req.split(' ').collect();
+    let mut out = vec![];
+    let join = |specs: &[&str], q: &[&str], texts: &[String]| format!("runm {} {} {} {} {}", specs.join(";"), if q.is_empty() { "-".to_string() } else { q.join(",") }, t[3], t[4], texts.join(";"));
+    let specs: Vec<&str> = t[1].split(';').collect();
+    let q: Vec<&str> = if t[2] == "-" { vec![] } else { t[2].split(',').collect() };
+    let texts: Vec<String> = t[5].split(';').map(|x| x.to_string()).collect();
+    for i in 4..specs.len() {
+        let mut s2 = specs.clone();
+        s2.remove(i);
+        out.push(join(&s2, &q, &texts));
+    }
+    if texts.len() > 1 {
+        for i in 0..texts.len() {
+            let mut t2 = texts.clone();
+            t2.remove(i);
+            out.push(join(&specs, &q, &t2));
+        }
+    }
+    for (i, tx) in texts.iter().enumerate() {
+        let text = dec_str(tx).unwrap();
+        let lines: Vec<&str> = text.split('\n').collect();
+        if lines.len() > 1 {
+            for j in 0..lines.len() {
+                let mut l = lines.clone();
+                l.remove(j);
+                let mut t2 = texts.clone();
+                t2[i] = enc_str(&l.join("\n"));
+                out.push(join(&specs, &q, &t2));
+            }
+        }
+    }
+    for i in 0..q.len() {
+        let mut q2 = q.clone();
+        q2.remove(i);
+        out.push(join(&specs, &q2, &texts));
+    }
+    out
+}
+
 pub fn describe_run(req: &str) -> String {
+    if req.starts_with("runm ") {
+        let t: Vec<&str> = req.split(' ').collect();
+        let specs: Vec<String> = t[1].split(';').map(|s| { let f: Vec<&str> = s.split('/').collect(); format!("{}{:?}", dec_str(f[1]).unwrap(), dec_list(f[2]).unwrap()) }).collect();
+        let texts: Vec<String> = t[5].split(';').map(|x| dec_str(x).unwrap()).collect();
+        return format!("runs on one Context: registrations={:?} results={} vars={:?} scripts={:?}", specs, t[2], dec_vars(t[3]), texts);
+    }
     let r = parse_req(req);
     format!("run_script({:?}) commands={:?} results={:?} halt_at={:?} vars={:?}", r.text, r.names, r.queue, r.halt_at, r.vars)
 }
@@ -164,7 +305,7 @@ impl Prop for C03Prop {
         "C03"
     }
     fn rule(&self) -> &'static str {
-        "programs of 1-25 lines over scripted commands c0..c3 (labels incl. duplicates, output variables, ${}/%{} arguments, unknown commands, blank/comment lines), a queue of results chosen by the generator (continue/goto label/goto line/error/crash/exit, with and without values, undefined labels, out-of-range lines), with or without an on_error command (same queue), initial variables. Observed: call log (command, bound arguments, line index), final variables, success / failure with the failing instruction's line. Non-trivial = at least 3 command invocations and at least one goto or error result consumed; distinct = distinct request."
+        "programs of 1-25 lines over scripted commands c0..c3 (labels incl. duplicates, output variables, ${}/%{} arguments, unknown commands, blank/comment lines), a queue of results chosen by the generator (continue/goto label/goto line/error/crash/exit, with and without values, undefined labels, out-of-range lines), with or without an on_error command (same queue), initial variables. Observed: call log (command, bound arguments, line index), final variables, success / failure with the failing instruction's line. One case in four is a `runm` history (lean/DuckModel/DynScripted.lean): 1-3 scripts run one after the other on the Context the previous run returned; registrations whose aliases equal other commands' names (the alias table is consulted first; the log names the command that actually ran); commands that register / remove commands - on_error included - while the script runs; commands that keep state in Context.state (read back by later commands, by the next run and after the last run); compared in addition: the returned state and the registered names. Non-trivial = at least 3 command invocations and at least one goto or error result consumed; distinct = distinct request."
     }
     fn budget(&self, tier: Tier) -> usize {
         match tier {
@@ -173,6 +314,9 @@ impl Prop for C03Prop {
         }
     }
     fn generate(&self, rng: &mut Rng, _tier: Tier) -> Case {
+        if rng.chance(1, 4) {
+            return gen_dyn(rng);
+        }
         let (text, n) = gen_program(rng, 25);
         let mut names: Vec<String> = CMDS.iter().map(|s| s.to_string()).collect();
         let on_error = rng.chance(1, 2);
@@ -203,10 +347,16 @@ impl Prop for C03Prop {
         Case { req: mk_req(&text, &names, &queue, None, &vars, fuel), in_domain: true, nontrivial, tags }
     }
     fn run_impl(&self, req: &str, _model: &str) -> String {
+        if req.starts_with("runm ") {
+            return run_dyn_req(req);
+        }
         let r = parse_req(req);
         run_scripted(&r.text, None, &r.names, &r.queue.join(","), r.halt_at, &r.vars)
     }
     fn shrink(&self, req: &str) -> Vec<String> {
+        if req.starts_with("runm ") {
+            return shrink_dyn(req);
+        }
         shrink_run(req)
     }
     fn describe(&self, req: &str) -> String {
